@@ -29,8 +29,8 @@ TRUSTED_EXTRA = ['C07: tools/rs2lean_window.py (which guard each Rust operation 
 # once that fix is in /repo, and mark F1 as fixed in known_findings.json.
 VEC = 'vec'
 SIZES = list(range(1, 10))
-TYPES = ['u8', 'u32', 'u64', 'w12', 'w24']    # w12 / w24: 12- and 24-byte elements (size does not divide 16)
-TMAX = {'u8': 2 ** 8 - 1, 'u32': 2 ** 32 - 1, 'u64': 2 ** 64 - 1, 'w12': 2 ** 32 - 4, 'w24': 2 ** 64 - 4}
+TYPES = ['u8', 'u16', 'w3', 'u32', 'u64', 'w12', 'w24']    # w3 / w12 / w24: 3-, 12- and 24-byte elements (below 4 bytes but not 1; size does not divide 16)
+TMAX = {'u8': 2 ** 8 - 1, 'u16': 2 ** 16 - 1, 'w3': 2 ** 8 - 3, 'u32': 2 ** 32 - 1, 'u64': 2 ** 64 - 1, 'w12': 2 ** 32 - 4, 'w24': 2 ** 64 - 4}
 MALFORMED_ARR = [(0, 0), (0, 1), (0, 2), (12, 12), (12, 11), (13, 13)]
 MALFORMED_UARR = [(12, 12), (12, 11)]          # only what the constructor rejects; anything else would be UB
 MALFORMED_VEC = [(0, 2), (0, 0), (3, 0), (1, 1), (2, 1), (5, 1)]
@@ -54,7 +54,7 @@ def values(rng, ty, length, mode):
     m = TMAX[ty]
     if mode == 'counter':
         start = rng.randrange(1, 50)
-        return [(start + i) % m + 1 for i in range(length)] if ty != 'u8' else [(start + i) % 255 + 1 for i in range(length)]
+        return [(start + i) % m + 1 for i in range(length)] if ty not in ('u8', 'w3') else [(start + i) % (m - 1) + 1 for i in range(length)]
     if mode == 'random':
         pool = [0, 1, m, m - 1]
         return [rng.choice(pool) if rng.random() < 0.15 else rng.randrange(0, m + 1) for _ in range(length)]
@@ -120,6 +120,13 @@ def corpus():
     # the repository's own test sizes: SIZE 4, CAPACITY 1200 is not in the menu; nearest shapes
     yield Case('arr 4 12 u64', [f'push {i}' for i in range(1, 60)], tags=('corpus',))
     yield Case(f'{VEC} 4 3 u64', [f'push {i}' for i in range(1, 60)], tags=('corpus',))
+    # scale: a capacity past 2^8 (array storages, SIZE 3 CAPACITY 300) and a vector storage with 3·400 cells, pushed over three rewinds;
+    # element types on the small-type path of the unsafe array storage (2 and 3 bytes)
+    for kind, ty, build in (('arr', 'u16', 'safe'), ('uarr', 'u16', 'unsafe'), ('uarr', 'w3', 'unsafe'), ('arr', 'u32', 'unsafe')):
+        yield Case(f'{kind} 3 300 {ty}', ['obs'] + [f'push {i % 250 + 1}' for i in range(1, 3 * 300 + 9)], build=build, tags=('scale',))
+    yield Case('uvec 3 400 u16', ['obs'] + [f'push {i % 60000 + 1}' for i in range(1, 3 * 1200 + 9)], build='unsafe', tags=('scale',))
+    for ty, n, c in (('u16', 2, 3), ('w3', 5, 8), ('u16', 9, 10), ('w3', 3, 4)):
+        yield Case(f'uarr {n} {c} {ty}', ['obs'] + [f'push {i}' for i in range(1, 3 * c + 3)], build='unsafe', tags=('corpus', 'small-type'))
 
 
 def generate(rng, tier):
